@@ -15,7 +15,7 @@ ENGINE = "e2e-reference"
 TECHNIQUE = "runtime contract on Results.get_result_times per observable + value-at-that-time comparison with the dense reference of the recorded SequenceData"
 LEVEL_TEXT = ("Exploration: evaluation-time sets (0 and 1, rationals, irrationals, grid-coincident times for dt that is not representable, "
               "inside the last ns, dense) as config default and per observable, incl. per-observable times within 0.5/duration of a default "
-              "time or of a grid point; dt dividing or not the duration; modulation on/off; emu-sv, emu-mps TDVP and DMRG. Stored times "
+              "time or of a grid point, times that equal a default / grid / other observable's time up to a few ulp or a few 1e-12, and 70-131 us sequences with linspace times; dt dividing or not the duration; modulation on/off; emu-sv, emu-mps TDVP and DMRG. Stored times "
               "must be exactly the requested ones, once each, increasing; values must be those of the state at that time.")
 LEVEL_NOTE = "Times are matched with 1e-9 absolute tolerance on the relative time. Value comparison uses 1-2 atom registers (emu-mps is then exact)."
 RULE = "(backend, dt class, default style, own style, near-collision kind, modulation); distinct = that + hash; non-trivial = an observable has own times different from the default and some time is not a multiple of dt"
@@ -30,7 +30,7 @@ def gen_cases(tier, seed):
     rng = np.random.default_rng(seed)
     n_cases = 96 if tier == "quick" else 1500
     return [{"seed": int(rng.integers(1 << 30)), "backend": BACKENDS[i % 4], "style": adapter.EVAL_STYLES[i % len(adapter.EVAL_STYLES)],
-             "collision": ["none", "near-default", "near-grid", "near-own"][(i // 4) % 4]} for i in range(n_cases)]
+             "collision": ["none", "near-default", "near-grid", "near-own", "ulp-default", "ulp-grid", "ulp-own", "long-linspace"][(i // 4) % 8]} for i in range(n_cases)]
 
 
 def run_case(case):
@@ -44,11 +44,19 @@ def run_case(case):
     mod = bool(rng.random() < 0.2) and bk != "dmrg"
     spec = seqgen.random_spec(rng, n=n, basis="ising", dmin=7.0, max_dur=int(rng.choice([20, 90, 300])), min_dur=8, n_pulses=int(rng.integers(1, 3)),
                               modulation=mod, wf_kinds=["const", "ramp", "blackman", "interp"], amp_max=8.0, det_max=10.0)
+    if case["collision"] == "long-linspace":
+        # > 65 us: one ulp of an absolute time in ns exceeds 1e-11, so times that coincide with the dt grid up to rounding are ~1e-11 ns apart
+        mod = False
+        T = int(rng.choice([70000, 100000, 131000]))
+        spec = {"basis": "ising", "device": "mock", "atoms": [[f"q{i}", 9.0 * i, 0.0] for i in range(n)], "has_global": True,
+                "ops": [{"op": "pulse", "ch": "g", "amp": ["const", T, float(rng.uniform(0.05, 0.3))], "det": ["const", T, float(rng.uniform(-0.2, 0.2))], "phase": 0.0}]}
     seq = seqgen.build(spec)
     duration = adapter.expected_duration(seq, mod)
     dt = float(rng.choice([0.1, 0.3, 0.5, 1, 2.5, 3, 7, 10, 33])) if duration <= 60 else float(rng.choice([1, 2.5, 3, 7, 10, 33, 100, 1000]))
     if duration / dt > 400:
         dt = float(max(1.0, round(duration / 300)))
+    if case["collision"] == "long-linspace":
+        dt = float(rng.choice([2000, 5000, 1000]))
     default = adapter.rand_eval_times(rng, case["style"], duration, dt)
     own_style = str(rng.choice(adapter.EVAL_STYLES))
     own = adapter.rand_eval_times(rng, own_style, duration, dt)
@@ -64,6 +72,24 @@ def run_case(case):
     elif col == "near-own" and own:
         base = float(rng.choice(own))
         own2 = sorted(set(own2) | {min(1.0, max(0.0, base + 0.4 * tolp))})
+    elif col.startswith("ulp"):
+        # the same time up to rounding (a few ulp, or a few 1e-12): must be treated as ONE time
+        def wiggle(t):
+            k = int(rng.integers(0, 4))
+            w = [float(np.nextafter(t, 2.0)), float(np.nextafter(t, -1.0)), t + 5e-12, t - 3e-12][k]
+            return min(1.0, max(0.0, w))
+        if col == "ulp-default" and default:
+            own = sorted(set(own) | {wiggle(float(rng.choice(default)))})
+        elif col == "ulp-grid":
+            k = int(rng.integers(1, max(2, int(duration // dt))))
+            own = sorted(set(own) | {wiggle(k * dt / duration)})
+        elif own:
+            own2 = sorted(set(own2) | {wiggle(float(rng.choice(own)))})
+    elif col == "long-linspace":
+        m = int(rng.choice([11, 21, 41]))
+        default = [float(x) for x in np.linspace(0, 1, m)]
+        own = [float(x) for x in np.linspace(0, 1, m)[1::2]]
+        own2 = [float(k * dt / duration) for k in range(1, int(duration // dt), 3)]
 
     def clean(ts):
         out = []
